@@ -46,7 +46,8 @@ int main(void) {
   int live[NK];
   VASSUME(qlen <= QL);
   char q[QL + 1];
-  for (int i = 0; i <= QL; i++) { if (i < qlen) { VASSUME(qb[i] != 0); q[i] = qb[i]; } else q[i] = 0; }
+  /* the query is the window q[0..qlen) of a longer buffer: the bytes after it are arbitrary (only the last one is NUL) */
+  for (int i = 0; i <= QL; i++) { if (i < qlen) { VASSUME(qb[i] != 0); q[i] = qb[i]; } else if (i < QL) { q[i] = qb[i]; } else q[i] = 0; }
 #ifdef EXCLUDE_KNOWN
   EXCLUDE_KNOWN
 #endif
@@ -90,11 +91,11 @@ int main(void) {
     VASSERT(t_size(t) == nlive, "size() counts stored keys");
     if (qlen > 0) {
       int gval = 0, gok = 0;
-      int glen = t_get(t, q, (char*) &gval, (char*) &gok);
+      int glen = t_get(t, q, qlen, (char*) &gval, (char*) &gok);
       int stored = (best >= 0 && bestlen == qlen);
       VASSERT(gok == stored, "get succeeds exactly for stored keys");
       if (stored) VASSERT(gval == bestval, "get returns the stored value");
-      VASSERT(t_has(t, q) == stored, "has succeeds exactly for stored keys");
+      VASSERT(t_has(t, q, qlen) == stored, "has succeeds exactly for stored keys");
     }
     /* second pass: the other representation */
     if (t_isFrozen(t)) { VASSERT(t_defrost(t) == 0, "defrost"); } else { VASSERT(t_freeze(t) == 0, "freeze"); }
